@@ -451,7 +451,7 @@ _IDAT_DECISIONS = [
     (r"^ne\(var\(chunk_type\), const:.*\)$", "next chunk is not IDAT: end of the run"),
     (r"^Gt\(Add\(Add\(var\(pos\), var\(chunk_len\)\)(\.0)?, K12\)(\.0)?, len\(var\(png_idat_stream\)\)\)$", "chunk runs past the input: end of the run"),
     (r"^(Eq|Ne)\(var\(chunk_len\), K0\)$", "empty chunk: end of the run (D10)"),
-    (r"^Ne\(finalize\(var\(crc\)\), from_be_bytes\(.*\)$", "CRC mismatch"),
+    (r"^(Ne|Eq)\(.*from_be_bytes\(array\{var\(png_idat_stream\)\[Add\(Add\(var\(pos\), var\(chunk_len\)\)(\.0)?, K8\).*$", "the computed CRC (however it is computed) against the four stored CRC bytes"),
     (r"^(Gt|Ge)\(var\(deflate_info_dump_level\), K\d+\)$", "logging"),
     (r"^Lt\(len\(var\(deflate_stream\)\), K6\)$", "payload shorter than zlib header + Adler-32"),
 ]
